@@ -200,7 +200,7 @@ func TestC02(t *testing.T) {
 func TestC05(t *testing.T) {
 	run(t, spec{
 		id:    "C05",
-		rule:  "saturation scripts: every input buffered and prefilled with more items than the script can consume (capacity = prefill >= H + number of releases + 1), ops only drain / receive n / release one by one / release a group / let time pass, v1 and v2 plain, all four dividers, 1..6 priorities, H constructed from the minimum; oracle: share = divider(all priorities sorted, H); after every receive per-priority in-flight <= share, at every quiescent point with no release outstanding total == H and per-priority == share; thorough adds the bounded exhaustive enumeration of release orders; non-trivial = at least 2 priorities, a release group mixing priorities was issued, and the shares are unequal or H is not a multiple of n; distinct = distinct script JSON",
+		rule:  "saturation scripts: every input buffered and prefilled with more items than the script can consume (capacity = prefill >= H + number of releases + 1; for v1 with an unbuffered output and a consumer that waits for quiescence after every receive also capacities 1..10 smaller than the shares, kept full by producers blocked on them), ops only drain / receive n / release one by one / release a group / let time pass, v1 and v2 plain, all four dividers, 1..6 priorities, H constructed from the minimum; oracle: share = divider(all priorities sorted, H); after every receive per-priority in-flight <= share, at every quiescent point with no release outstanding total == H and per-priority == share; thorough adds the bounded exhaustive enumeration of release orders; non-trivial = at least 2 priorities, a release group mixing priorities was issued, and the shares are unequal or H is not a multiple of n; distinct = distinct script JSON",
 		opts:  GenOpts{Vers: []int{1, 2}, Simple: []bool{false}, Dividers: allDiv, Saturated: true},
 		check: CheckC05,
 		skip:  rejected,
